@@ -239,7 +239,7 @@ func genIOSites() {
 	}
 
 	// ---- the inventory
-	var sites, third []string
+	var sites, third, mentions []string
 	seenThird := map[string]bool{}
 	src := func(e ast.Expr) string {
 		var b bytes.Buffer
@@ -291,16 +291,22 @@ func genIOSites() {
 			case *ast.FuncLit:
 				ft = x.Type
 			}
-			assigns, bad := 0, false
+			// decls: declarations without a value in fn (`var x T`, a named result): the variable starts as the zero
+			// value and then stands for its single later assignment (`x, err = f()` in any statement shape)
+			assigns, decls, plain, bad := 0, 0, 0, false
 			if ft != nil {
-				for _, fl := range []*ast.FieldList{ft.Params, ft.Results} {
+				for k, fl := range []*ast.FieldList{ft.Params, ft.Results} {
 					if fl == nil {
 						continue
 					}
 					for _, fld := range fl.List {
 						for _, id := range fld.Names {
 							if id.Name == name {
-								bad = true
+								if k == 0 {
+									bad = true // a parameter: its value comes from the caller
+								} else {
+									decls++
+								}
 							}
 						}
 					}
@@ -312,9 +318,12 @@ func genIOSites() {
 					for i, l := range x.Lhs {
 						if id, isId := l.(*ast.Ident); isId && id.Name == name {
 							assigns++
+							if x.Tok == token.ASSIGN {
+								plain++
+							}
 							switch {
-							case x.Tok != token.DEFINE:
-								bad = true
+							case x.Tok != token.DEFINE && x.Tok != token.ASSIGN:
+								bad = true // += and the like
 							case len(x.Rhs) == len(x.Lhs):
 								rhs, idx = x.Rhs[i], -1
 							case len(x.Rhs) == 1:
@@ -335,6 +344,10 @@ func genIOSites() {
 				case *ast.ValueSpec:
 					for i, id := range x.Names {
 						if id.Name == name {
+							if len(x.Values) == 0 {
+								decls++
+								continue
+							}
 							assigns++
 							switch {
 							case len(x.Values) == len(x.Names):
@@ -355,7 +368,9 @@ func genIOSites() {
 				}
 				return true
 			})
-			if bad || assigns != 1 || rhs == nil {
+			// either one `:=` / `var x = e` and nothing else, or one value-less declaration in fn followed by one `=`
+			// (a `=` without a declaration in fn assigns a variable of an enclosing scope: unknown)
+			if bad || assigns != 1 || rhs == nil || decls > 1 || (plain == 1) != (decls == 1) {
 				return nil, 0, false
 			}
 			return rhs, idx, true
@@ -472,6 +487,31 @@ func genIOSites() {
 				fname += "/lit"
 			}
 			use := "ref"
+			// `*pkg.T` as the declared type of a variable, parameter, result or field, or in a type assertion, is only
+			// a mention: the variable starts nil and a non-nil value can only come from a call, a composite literal,
+			// new() or a value-typed declaration - which all remain entries of the inventory.
+			if len(stack) >= 3 {
+				if st, isStar := stack[len(stack)-2].(*ast.StarExpr); isStar {
+					switch par := stack[len(stack)-3].(type) {
+					case *ast.ValueSpec:
+						if par.Type == ast.Expr(st) {
+							use = "ptrtype"
+						}
+					case *ast.Field:
+						if par.Type == ast.Expr(st) {
+							use = "ptrtype"
+						}
+					case *ast.TypeAssertExpr:
+						if par.Type == ast.Expr(st) {
+							use = "ptrtype"
+						}
+					}
+				}
+			}
+			if use == "ptrtype" {
+				mentions = append(mentions, fmt.Sprintf("(%s, %s, %s, %s)", coqStr(fl.dir), coqStr(fname), coqStr(path+"."+sel.Sel.Name), coqStr(use)))
+				return true
+			}
 			if len(stack) >= 2 {
 				if ce, ok := stack[len(stack)-2].(*ast.CallExpr); ok && ce.Fun == ast.Expr(sel) {
 					var as []string
@@ -489,6 +529,7 @@ func genIOSites() {
 		fatal("iosites: no IO site found at all (translator broken?)")
 	}
 	sort.Strings(third)
+	sort.Strings(mentions)
 	sort.Strings(sites) // a multiset: moving code around inside /repo does not change the inventory
 
 	var b strings.Builder
@@ -502,6 +543,12 @@ func genIOSites() {
 	fmt.Fprintf(&b, "(* extensions.GrolFileExtension = %q *)\nDefinition grol_file_extension : list N := %s.\n", ext, bytesLit(ext))
 	fmt.Fprintf(&b, "(* repl.AutoSaveFile = %q *)\nDefinition repl_autosave_file : list N := %s.\n\n", auto, bytesLit(auto))
 	fmt.Fprintf(&b, "Definition io_sites : list (string * string * string * string) :=\n  [%s].\n\n", strings.Join(sites, ";\n   "))
+	b.WriteString("(* pointer-type mentions (`*pkg.T` as a declared type): informational, part of no obligation *)\n")
+	if len(mentions) == 0 {
+		b.WriteString("Definition io_pointer_type_mentions : list (string * string * string * string) := [].\n\n")
+	} else {
+		fmt.Fprintf(&b, "Definition io_pointer_type_mentions : list (string * string * string * string) :=\n  [%s].\n\n", strings.Join(mentions, ";\n   "))
+	}
 	if len(third) == 0 {
 		b.WriteString("Definition third_party_imports : list (string * string) := [].\n")
 	} else {
